@@ -77,6 +77,10 @@ class EncodeFastTask(Task):
                         eqs.append(term(a == b) if isinstance(a == b, (Sym, bool)) else z3.BoolVal(bool(a == b)))
                 obs.append(Obligation(f'{base}/frames-are-counter-length-chunks/path[{pi}]', hyps, z3.And(*eqs) if eqs else z3.BoolVal(True), inputs=inputs))
                 obs.append(Obligation(f'{base}/every-frame-at-most-8-bytes/path[{pi}]', hyps, z3.BoolVal(all(len(g) <= 8 for g in got)), inputs=inputs))
+            # ownership: the list handed to the caller is the caller's (a later call must not be able to rewrite it)
+            kept = 'final_enc' in p.ex.ghost and any(v is got for v in p.ex.ghost['final_enc'].attrs.values())
+            obs.append(Obligation(f'{base}/returned-list-is-not-kept-by-the-encoder/path[{pi}]', hyps, z3.BoolVal(isinstance(got, list) and not kept), inputs=inputs,
+                                  meta={'note': 'the returned frame list is (or comes from) an attribute of the encoder: the next call rewrites what the previous caller still holds', 'ownership': True}))
             obs.append(Obligation(f'{base}/sequence-counter-advances-mod-8/path[{pi}]', hyps,
                                   term(p.ex.ghost['final_enc'].attrs['sequence_counter'] == (s + 1) % 8) if 'final_enc' in p.ex.ghost else z3.BoolVal(False), inputs=inputs))
             obs.append(Obligation(f'{base}/assigns-only-sequence_counter/path[{pi}]', hyps,
@@ -103,9 +107,17 @@ def replay_encode(n, model):
     except Exception as e:  # noqa
         return {'confirmed': True, 'inputs': {'n': n, 'seq': s, 'payload': P.hex()}, 'observed': ['raise', type(e).__name__, str(e)]}
     want = [bytes(f) for f in S.frames(list(P), s)]
-    bad = [bytes(g) for g in got] != want or enc.sequence_counter != (s + 1) % 8
-    return {'confirmed': bad, 'inputs': {'n': n, 'seq': s, 'payload': P.hex()}, 'observed': {'frames': [bytes(g).hex() for g in got], 'next_counter': enc.sequence_counter},
-            'expected': {'frames': [w.hex() for w in want], 'next_counter': (s + 1) % 8}, 'how': 'NMEA2000Encoder._encode_fast_message on the working tree'}
+    first = [bytes(g) for g in got]
+    try:
+        again = enc._encode_fast_message(126720, 3, 1, 255, bytes(b ^ 0xFF for b in P) + b'\x01')
+    except Exception:  # noqa
+        again = None
+    if again is got or [bytes(g) for g in got] != first:
+        return {'confirmed': True, 'inputs': {'n': n, 'seq': s, 'payload': P.hex()}, 'observed': {'first result before the second call': [f.hex() for f in first], 'after': [bytes(g).hex() for g in got]},
+                'expected': 'the list returned by the first call is unchanged by the second call', 'how': 'two consecutive calls of NMEA2000Encoder._encode_fast_message on one encoder (working tree)'}
+    bad = first != want or enc.sequence_counter != (s + 2) % 8
+    return {'confirmed': bad, 'inputs': {'n': n, 'seq': s, 'payload': P.hex()}, 'observed': {'frames': [f.hex() for f in first], 'counter_after_two_calls': enc.sequence_counter},
+            'expected': {'frames': [w.hex() for w in want], 'counter_after_two_calls': (s + 2) % 8}, 'how': 'NMEA2000Encoder._encode_fast_message on the working tree'}
 
 
 def main(tier):
